@@ -112,6 +112,8 @@ def _frame_plan(draw, max_rows):
             vals = [repl[kind] if build.plan_isna(kind, v) else v for v in vals]
         cols.append({"name": nm, "kind": kind, "vals": vals})
     plan = {"obj": "frame", "fmt": fmt, "suffix": suffix, "opts": opts, "frame": {"n": n, "cols": cols}}
+    if cols and draw(st.integers(0, 7)) == 0:
+        plan["frame"]["via"] = "marked_by_group_by"        # the frame that is written carries a group_by mark
     if n >= 2 and draw(st.integers(0, 3)) == 0:
         # history: the same frame object is written once (this or another format), two cells of a column are swapped in
         # place, and only then comes the write that is read back: the file must show the frame as it is now
@@ -266,7 +268,7 @@ def check(plan, ctx):
             getattr(data, "write_" + rw["fmt"])(first)
         except Exception:
             ctx.cls("first_write_in_another_format_failed")     # e.g. names the other format cannot hold: not the subject here
-        fp = {"n": fp["n"], "cols": [dict(c, vals=list(c["vals"])) for c in fp["cols"]]}
+        fp = dict(fp, cols=[dict(c, vals=list(c["vals"])) for c in fp["cols"]])
         for j, r1, r2 in rw["swaps"]:
             c = fp["cols"][j]
             c["vals"][r1], c["vals"][r2] = c["vals"][r2], c["vals"][r1]
